@@ -30,7 +30,7 @@ pub fn shape_preds(printed: &Printed, e: &RErr) -> Vec<DiagPred> {
     // A call made from inside an interpolation slot is reported with
     // slot-relative positions and a nested location prefix (DESIGN.md §3.7):
     // only the general shape is asserted then.
-    if e.stack.iter().any(|f| printed.first.get(f.call as usize).copied().flatten().is_none()) {
+    if e.stack.iter().any(|f| f.from_slot || printed.first.get(f.call as usize).copied().flatten().is_none()) {
         return v;
     }
     let in_func = e.stack.last().map(|f| f.callee.clone().unwrap_or_else(unnamed));
@@ -55,7 +55,7 @@ pub fn shape_preds(printed: &Printed, e: &RErr) -> Vec<DiagPred> {
 }
 
 pub fn position_pred(printed: &Printed, e: &RErr) -> Option<DiagPred> {
-    if e.in_slot {
+    if e.in_slot && !e.in_slot_direct {
         return None;
     }
     let p = match e.rule {
@@ -63,6 +63,9 @@ pub fn position_pred(printed: &Printed, e: &RErr) -> Option<DiagPred> {
         PosRule::Op => printed.op.get(e.node as usize).copied().flatten(),
         PosRule::Loose => None,
     }?;
+    if e.in_slot {
+        return Some(DiagPred::SlotPos{line: p.line, col: p.col});
+    }
     Some(DiagPred::Pos{line: p.line, col: p.col})
 }
 
